@@ -366,13 +366,17 @@ fn dep_text(d: &Dep) -> String {
     }
 }
 
-fn by_name<'a, T>(xs: &'a [T], name: impl Fn(&T) -> &str, path: &str, what: &str, side: &str, out: &mut Vec<String>) -> BTreeMap<&'a str, &'a T>
-where
-    T: 'a,
-{
+fn by_name<'a, T>(
+    xs: &'a [T],
+    name: impl Fn(&'a T) -> &'a str,
+    path: &str,
+    what: &str,
+    side: &str,
+    out: &mut Vec<String>,
+) -> BTreeMap<&'a str, &'a T> {
     let mut m: BTreeMap<&str, &T> = BTreeMap::new();
     for x in xs {
-        let n: &'a str = unsafe { std::mem::transmute::<&str, &'a str>(name(x)) };
+        let n: &'a str = name(x);
         if m.insert(n, x).is_some() {
             out.push(format!("{path}: {what} {n} listed twice in {side}"));
         }
